@@ -49,10 +49,14 @@ fn block_mix_case<const LEN: usize>() {
     let mut got = [0u8; LEN];
     scrypt_block_mix(&b, &mut got);
     let want = spec_block_mix(&b);
-    let mut i = 0;
-    while i < LEN {
-        assert!(got[i] == want[i], "BlockMix output byte");
-        i += 1;
+    let mut blk = 0;
+    while blk < LEN / 64 {
+        let mut k = 0;
+        while k < 64 {
+            assert!(got[64 * blk + k] == want[64 * blk + k], "BlockMix output byte");
+            k += 1;
+        }
+        blk += 1;
     }
     kani::cover!(true);
 }
@@ -99,10 +103,14 @@ fn ro_mix_case<const N: usize>() {
         x = spec_block_mix(&y);
         i += 1;
     }
-    let mut k = 0;
-    while k < 128 {
-        assert!(b[k] == x[k], "ROMix output byte");
-        k += 1;
+    let mut blk = 0;
+    while blk < 2 {
+        let mut k = 0;
+        while k < 64 {
+            assert!(b[64 * blk + k] == x[64 * blk + k], "ROMix output byte");
+            k += 1;
+        }
+        blk += 1;
     }
     kani::cover!(true);
 }
